@@ -418,6 +418,15 @@ def cnf_formula(rng):
         B.App('fb', B.FUN(B.BOOL, (B.BV(1),)), (b1[0],)),
         ('eq', None, (('ite', None, (p[0], b1[0], b1[1])), B.BVc(1, 1))),
     ]
+    # arithmetic atoms in the shapes the simplifier rewrites (negative
+    # literals are built as Not(a).simplify() by the converters)
+    i0, i1 = B.Sym('i0', B.INT), B.Sym('i1', B.INT)
+    if rng.random() < 0.4:
+        atoms += [('le', None, (('minus', None, (i0, i1)), B.Int(0))),
+                  ('le', None, (i0, i1)),
+                  ('lt', None, (('minus', None, (i1, i0)), B.Int(0))),
+                  ('le', None, (B.Int(0), ('minus', None, (i0, i1)))),
+                  ('eq', None, (('plus', None, (i0, B.Int(1))), i1))]
     pool = []
 
     def go(d):
